@@ -196,7 +196,13 @@ impl<'a> Printer<'a> {
             CallForm::Paren => format!("{}({})", callee_text, self.args(args, lvl, key)),
             CallForm::Prime => {
                 let a: Vec<String> = args.iter().map(|a| self.expr(a, lvl + 1)).collect();
-                let s = if a.is_empty() { format!("{}'", callee_text) } else { format!("{}' {}", callee_text, a.join(", ")) };
+                // the argument list of a prime call may continue on the next line after a comma
+                let sep = match self.lay(key ^ 0xbeef, 6) {
+                    1 => format!(",\n{}", self.ind(lvl + 2)),
+                    2 => format!(", // continued\n{}", self.ind(lvl + 2)),
+                    _ => ", ".to_string(),
+                };
+                let s = if a.is_empty() { format!("{}'", callee_text) } else { format!("{}' {}", callee_text, a.join(&sep)) };
                 if stmt_pos {
                     s
                 } else {
